@@ -157,7 +157,8 @@ for k, fs in [("u16", ["serialize_u16"]), ("u32", ["serialize_u32"]), ("u64", ["
               ("raw", ["serialize_bool", "serialize_i8", "serialize_u8", "serialize_f32", "serialize_f64"]),
               ("char", ["serialize_char"]),
               ("option_unit_newtype", ["serialize_none", "serialize_some", "serialize_unit", "serialize_unit_struct", "serialize_newtype_struct"]),
-              ("variants", ["serialize_unit_variant", "serialize_newtype_variant", "serialize_tuple_variant", "serialize_struct_variant", "SerializeTupleVariant::*", "SerializeStructVariant::*"]),
+              ("variants", ["serialize_unit_variant", "serialize_newtype_variant"]),
+              ("variants2", ["serialize_tuple_variant", "serialize_struct_variant", "SerializeTupleVariant::*", "SerializeStructVariant::*"]),
               ("compound", ["serialize_seq", "serialize_map", "serialize_tuple", "serialize_tuple_struct", "serialize_struct", "SerializeSeq::*", "SerializeMap::*", "SerializeTuple::*", "SerializeTupleStruct::*", "SerializeStruct::*"]),
               ("buffer_full", ["(all emitters, zero-capacity storage)"])]:
     K("C02.K.emit." + k, EM, "verif_emit::emit_" + k, {"C02": "D"} if k != "buffer_full" else {"C05": "D"}, fns=[SER + f for f in fs],
@@ -205,3 +206,113 @@ K("C04.K.wont_implement_kind", DEC, "verif_c04d::wont_implement_kind", {"C04": "
 K("C04.K.size_hint", DEC, "verif_c04d::seq_size_hint", {"C04": "D"}, fns=["postcard::de::deserializer::SeqAccess::size_hint"],
   note="Some(h) ==> h <= bytes left, for every claimed length")
 K("C04.K.size_hint_exact", DEC, "verif_c04d::seq_size_hint_exact", {"C04": "S"}, note="Some(claimed) iff it fits")
+
+# ---------------------------------------------------------------- C06 / C07 COBS
+import os as _os, glob as _glob, shutil as _shutil, re as _re
+
+def prepare_cobs(ws):
+    """Scratch-only: vendor the pinned cobs-0.2.3 registry source, append a cfg(kani) constructor/getter for the private
+    EncoderState, wire it in with [patch.crates-io]. The crate's own code is unchanged."""
+    c = _glob.glob(_os.path.expanduser("~/.cargo/registry/src/*/cobs-0.2.3"))
+    if not c:
+        raise RuntimeError("cobs-0.2.3 not in cargo registry")
+    dst = _os.path.join(ws, "vendor", "cobs")
+    _shutil.copytree(c[0], dst)
+    ct = open(_os.path.join(dst, "Cargo.toml")).read()
+    ct = _re.sub(r"\[dev-dependencies\.quickcheck\][^\[]*", "", ct)
+    open(_os.path.join(dst, "Cargo.toml"), "w").write(ct)
+    with open(_os.path.join(dst, "src", "enc.rs"), "a") as f:
+        f.write("""
+// ---- appended by /verif, cfg(kani) only ----
+#[cfg(kani)]
+impl EncoderState {
+    pub fn verif_new(code_idx: usize, num_bt_sent: u8, offset_idx: u8) -> Self { Self { code_idx, num_bt_sent, offset_idx } }
+    pub fn verif_parts(&self) -> (usize, u8, u8) { (self.code_idx, self.num_bt_sent, self.offset_idx) }
+}
+""")
+    with open(_os.path.join(ws, "Cargo.toml"), "a") as f:
+        f.write('\n[patch.crates-io]\ncobs = { path = "vendor/cobs" }\n')
+
+GCOBS = "postcard|" + PC_FEATURES + "|cobs-vendored"
+PREPARE = {GCOBS: prepare_cobs}
+CB = "postcard/src/ser/flavors.rs::verif_cobs"
+COBSF = ["postcard::ser::flavors::Cobs::try_new", "postcard::ser::flavors::Cobs::try_push", "postcard::ser::flavors::Cobs::finalize"]
+K("C06.K.cobs.step_slice", CB, "verif_cobs::cobs_step_slice", {"C06": "D", "C05": "D", "C20": "S"}, group=GCOBS, fns=COBSF,
+  note="Cobs<Slice>::try_push from an ARBITRARY state satisfying the representation invariant == one step of the abstract encoder machine (zero byte / data byte / 254-block), BufferFull thresholds, frame; loop-free")
+K("C06.K.cobs.new_finalize_slice", CB, "verif_cobs::cobs_new_finalize_slice", {"C06": "D", "C05": "D", "C20": "S"}, group=GCOBS, fns=COBSF,
+  note="try_new reserves one code byte with the default state; finalize patches the code byte, appends exactly one 0x00, from an arbitrary state")
+K("C06.K.cobs.step_hvec", CB, "verif_cobs::cobs_step_hvec", {"C06": "S", "C20": "D"}, group=GCOBS, label="bounded(B=6)", fns=COBSF,
+  note="same step contract over HVec storage: the transformation does not depend on the innermost storage")
+for l, what in [("cobs_flavor_correct", "finalize(run(init, msg)) == cobs(msg) ++ [0] for EVERY message of every length (induction): this settles all run lengths around multiples of 254"),
+                ("main_lemma", "generalised induction hypothesis of the above"),
+                ("cobs_no_zero", "cobs(msg) contains no zero byte"), ("frame_single_zero", "the frame has exactly one zero byte, its last"),
+                ("cobs_len_bound", "|cobs(msg)| <= n + floor(n/254) + 1"), ("cobs_len_exact_nonzero", "equality for zero-free messages"),
+                ("cobs_roundtrip", "uncobs(cobs(msg)) == msg for every message")]:
+    V("C06.L.cobs." + l, "cobs", l, {"C06": "D", "C20": "S"} if l != "main_lemma" else {"C06": "S"}, kind="L", note=what)
+V("C06.V.cobs.encoder_push", "cobs", "EncoderState::push", {"C06": "D", "C20": "S"}, fns=["cobs::EncoderState::push (pinned registry source)"],
+  note="the dependency's encoder step applied to any output satisfying the invariant IS the abstract machine's push")
+V("C06.V.cobs.encoder_finalize", "cobs", "EncoderState::finalize", {"C06": "D"}, fns=["cobs::EncoderState::finalize"])
+V("C06.V.cobs.encoder_default", "cobs", "EncoderState::default0", {"C06": "D"}, fns=["cobs::EncoderState::default"])
+C06M = "postcard/src/lib.rs::verif_c06"
+K("C06.K.api.small", C06M, "verif_c06::api_small", {"C06": "D"}, needs=(REF, PROBES), label="bounded(plain encoding <= 7 bytes)",
+  fns=["postcard::to_slice_cobs", "postcard::from_bytes_cobs"], note="to_slice_cobs(v) == ref_cobs(to_slice(v)) ++ [0], one zero, decodes back; every value of the probe enum")
+K("C06.K.frames", C06M, "verif_c06::frames", {"C06": "D"}, needs=(REF, PROBES), label="bounded(2 frames)",
+  fns=["postcard::take_from_bytes_cobs"], note="two frames back to back, last sentinel present or not: values in order, remainder exactly after each frame")
+K("C07.K.from_bytes_cobs", C06M, "verif_c06::decode_arbitrary", {"C07": "D"}, needs=(REF, PROBES), label="bounded(input<=7 bytes)",
+  fns=["postcard::from_bytes_cobs", "cobs::decode_in_place"], note="every byte string <= 7: no panic / OOB; BadEncoding iff ill-formed, else == plain decoding of the reference COBS payload")
+K("C07.K.take_from_bytes_cobs", C06M, "verif_c06::take_arbitrary", {"C07": "D"}, needs=(REF, PROBES), label="bounded(input<=7 bytes)",
+  fns=["postcard::take_from_bytes_cobs", "cobs::decode_in_place_report"], note="... and the remainder begins immediately after the frame's sentinel, untouched")
+
+# ---------------------------------------------------------------- C13 fixint, C10 CRC
+C13M = "postcard/src/lib.rs::verif_c13"
+for t in ["u16", "i16", "u32", "i32", "u64", "i64", "u128", "i128"]:
+    K("C13.K.fixint." + t, C13M, "verif_c13::fix_" + t, {"C13": "D"},
+      fns=["postcard::fixint::le::serialize", "postcard::fixint::le::deserialize", "postcard::fixint::be::serialize", "postcard::fixint::be::deserialize",
+           "postcard::fixint::<impl Serialize/Deserialize for LE<%s>/BE<%s>>" % (t, t)],
+      note="struct with #[serde(with = fixint::le/be)] field: exactly size_of bytes, byte i == the right 8 bits, decodes back, truncation -> UnexpectedEnd; every value")
+C10M = "postcard/src/lib.rs::verif_c10"
+for w in ["u8", "u16", "u32", "u64", "u128"]:
+    tier = "quick" if w in ("u8", "u32") else "thorough"
+    K("C10.K.ser.crc_" + w, C10M, "verif_c10::ser_" + w, {"C10": "D"}, tier=tier,
+      fns=["postcard::ser::flavors::crc::CrcModifier::try_push", "postcard::ser::flavors::crc::CrcModifier::finalize", "postcard::ser::flavors::crc::to_slice_" + w,
+           "postcard::de::flavors::crc::take_from_bytes_" + w],
+      note="output == plain ++ LE(bitwise reference CRC of exactly the plain bytes); round trip with tail; every value of the probe")
+    K("C10.K.de.crc_" + w, C10M, "verif_c10::de_" + w, {"C10": "D"}, tier=tier, label="bounded(input <= 4 + width/8 bytes = longest frame of the probe)",
+      fns=["postcard::de::flavors::crc::CrcModifier::pop", "postcard::de::flavors::crc::CrcModifier::try_take_n", "postcard::de::flavors::crc::CrcModifier::finalize"],
+      note="on EVERY input: Ok ==> consumed value bytes are followed by their correct checksum and the remainder starts after it; Err ==> plain error, too short, or genuine mismatch (BadCrc)")
+K("C10.K.take_n_feeds_digest", C10M, "verif_c10::take_n_feeds_digest", {"C10": "D"}, fns=["postcard::de::flavors::crc::CrcModifier::try_take_n"],
+  note="borrowed bytes (multi-byte try_take_n) are covered by the checksum: any corruption of them is rejected")
+
+# ---------------------------------------------------------------- C12 max size
+MS = "postcard/src/max_size.rs::verif_maxsize"
+K("C12.K.const.tight", MS, "verif_maxsize::const_tight", {"C12": "D"}, fns=["postcard::max_size::<impl MaxSize for bool..f64, char, (), Option, [T;N], tuples 1-6, heapless::Vec, heapless::String>"],
+  note="constants of the kinds the property calls tight EQUAL the wire-format formula (marker element types with distinct prime sizes)")
+K("C12.K.const.safe", MS, "verif_maxsize::const_safe", {"C12": "D"}, fns=["postcard::max_size::<impl MaxSize for Result, Range*, &T, &mut T, Box, Rc, Arc, PhantomData, NonZero*>"],
+  note="remaining impls: constant >= wire-format maximum")
+K("C12.K.varint_size", MS, "verif_maxsize::varint_size_exact", {"C12": "D"}, fns=["postcard::max_size::varint_size"],
+  note="varint_size(n) == |canonical varint of n| for every usize n")
+for t in ["u16", "i16", "u32", "i32", "u64", "i64", "u128", "i128", "usize", "bool", "f64", "option", "tuple", "array", "result", "char"]:
+    K("C12.K.value." + t, MS, "verif_maxsize::value_" + t, {"C12": "D"}, tier="quick" if t != "char" else "thorough",
+      fns=["postcard::ser::serialized_size", "postcard::max_size::MaxSize"],
+      note="serialized_size(v) <= POSTCARD_MAX_SIZE for EVERY value of the type, with a cover witness that the bound is attained")
+
+# ---------------------------------------------------------------- C20 stacks, C11 transports
+C20M = "postcard/src/lib.rs::verif_c20"
+K("C20.K.recorder", C20M, "verif_c20::recorder", {"C20": "D"}, needs=(REF, PROBES), fns=["postcard::serialize_with_flavor", "postcard::ser::flavors::Flavor::try_extend (default)"],
+  note="user flavours with and without a try_extend override receive exactly plain(v), in order; finalize once; every value of the probe enum")
+for s in ["slice", "hvec", "allocvec"]:
+    K("C20.K.stack.crc_in_cobs_" + s, C20M, "verif_c20::stack_crc_in_cobs_" + s, {"C20": "D"}, needs=(REF, PROBES),
+      fns=["postcard::ser::flavors::crc::CrcModifier", "postcard::ser::flavors::Cobs", "postcard::serialize_with_flavor"],
+      note="CrcModifier(Cobs(storage)) output == ref_cobs(plain ++ LE crc32) ++ [0] (bitwise CRC, reference COBS); slice variant also undoes the layers in reverse")
+C11M = "postcard/src/lib.rs::verif_c11"
+IOF = ["postcard::de::flavors::io::io::IOReader::pop", "postcard::de::flavors::io::io::IOReader::try_take_n", "postcard::de::flavors::io::io::IOReader::finalize",
+       "postcard::de::flavors::io::SlidingBuffer::take_n", "postcard::de::flavors::io::SlidingBuffer::complete"]
+K("C11.K.ioreader.contract", C11M, "verif_c11::ioreader_contract", {"C11": "D", "C04": "D"}, needs=(REF, PROBES), label="bounded(stream<=6, scratch<=4, takes<=3+2)", fns=IOF,
+  note="IOReader over a model reader with nondeterministic short reads satisfies the Flavor contract of de::Slice; slots consecutive & disjoint inside the scratch; reader advanced by exactly the bytes consumed; unused scratch returned")
+K("C11.K.ioreader.fail", C11M, "verif_c11::ioreader_fail", {"C11": "D"}, needs=(REF, PROBES), label="bounded(3 calls)", fns=IOF,
+  note="reader failing at any call => Err(DeserializeUnexpectedEnd), no panic")
+K("C11.K.from_io", C11M, "verif_c11::from_io_two_messages", {"C11": "D"}, needs=(REF, PROBES), label="bounded(stream 6 bytes)", fns=["postcard::from_io"],
+  note="from_io == take_from_bytes on every 6-byte stream and every short-read schedule; two consecutive messages")
+K("C11.K.to_io", C11M, "verif_c11::to_io_partial_writes", {"C11": "D"}, needs=(REF, PROBES), label="bounded(encoding<=4 bytes)",
+  fns=["postcard::to_io", "postcard::ser::flavors::io::WriteFlavor::try_push", "postcard::ser::flavors::io::WriteFlavor::try_extend", "postcard::ser::flavors::io::WriteFlavor::finalize"],
+  note="writer accepting nondeterministic partial writes receives exactly plain(v), flushed once; failing writer => Err, never a panic")
